@@ -15,8 +15,49 @@ def _pairs(ps):
 
 
 # ---- independent references (written from the property text, no model, no library code) ----
+def max_matching_bfs(nu, nv, edges):
+    """size of a maximum matching by breadth-first augmenting-path search with explicit queues (no recursion, so that graphs
+    whose augmenting / alternating paths are many hundred edges long can be judged): greedy start, then one BFS over
+    alternating paths per still unmatched U vertex; a vertex whose search fails stays unmatched for good (Berge)"""
+    adj = [[] for _ in range(nu)]
+    for (u, v) in sorted(set(map(tuple, edges))):
+        adj[u].append(v)
+    mu, mv = [-1] * nu, [-1] * nv
+    for u in range(nu):
+        for v in adj[u]:
+            if mv[v] == -1:
+                mu[u], mv[v] = v, u
+                break
+    for s in range(nu):
+        if mu[s] != -1:
+            continue
+        prev_u = {s: None}          # U vertex -> V vertex it was reached from
+        via = {}                    # V vertex -> U vertex it was reached from
+        queue, end = [s], None
+        while queue and end is None:
+            u = queue.pop(0)
+            for v in adj[u]:
+                if v in via:
+                    continue
+                via[v] = u
+                if mv[v] == -1:
+                    end = v
+                    break
+                prev_u[mv[v]] = v
+                queue.append(mv[v])
+        while end is not None:      # flip the path back to s
+            u = via[end]
+            nxt = prev_u[u]
+            mu[u], mv[end] = end, u
+            end = nxt
+    return sum(1 for u in range(nu) if mu[u] != -1)
+
+
 def kuhn_max_matching(nu, nv, edges):
-    """size of a maximum matching by Kuhn's augmenting-path algorithm on the plain edge set"""
+    """size of a maximum matching by Kuhn's augmenting-path algorithm on the plain edge set (graphs with a side beyond
+    BIG_SIDE: the queue-based search above, Kuhn's recursion is one frame per matched pair of the path)"""
+    if max(nu, nv) > 64:
+        return max_matching_bfs(nu, nv, edges)
     adj = [[] for _ in range(nu)]
     for (u, v) in set(map(tuple, edges)):
         adj[u].append(v)
@@ -102,7 +143,13 @@ class C14(Prop):
             "earlier entry under a packed / truncated / decimal-concatenated edge key ((u,v) ~ (u-+d, v+-d*B), (u, v+-d*B)), plus exact "
             "duplicates; 3/4 with the many vertices on the V side, 1/4 on the U side (smaller: up to ~2^11 quick, 2^13, rarely 2^16 thorough); "
             "their observation is recorded compactly (list counts + non-empty adjacency lists) and the reference sizes are computed on "
-            "the graph without its isolated vertices; koenig cases: a random valid "
+            "the graph without its isolated vertices; LONG SERIAL ALTERNATING CHAINS (family chain, 8 quick / 40 thorough, oracle only): 1-3 disjoint "
+            "ladders u_i-v_i, u_i-v_{i+1} with 65..900 rungs in all (bands 496-700, 701-900, 201-495, 65-200, each twice in every quick run), each closed by a "
+            "surplus U vertex on its first V vertex (the longest ladder 90%, the others 60%: V saturated, that U vertex unmatched, the Koenig exploration must walk through all matched "
+            "pairs of the ladder one after the other) or by a surplus V vertex; V and / or U randomly renumbered, edge entries shuffled, duplicate "
+            "entries, isolated vertices; run under the interpreter's default recursion limit from the harness' shallow call stack (limit recorded); "
+            "any exception (RecursionError included) is a violation: the property promises a cover for every bipartite graph, and the reference "
+            "maximum matching for these graphs is a queue-based augmenting-path search without recursion; koenig cases: a random valid "
             "(not necessarily maximum) matching handed to _explore_alternating_paths; malformed cases: sides < 1, out-of-range / "
             "negative endpoints (both sides must reject). non-trivial = at least one edge; distinct by case content")
     clauses = [
@@ -121,7 +168,9 @@ class C14(Prop):
               "size assert and the per-start visit orders of _explore_alternating_paths, on every explored graph that is not flagged oracle-only "
               "(distribution counter tie:model); rejected inputs on both sides. The oracle-only graphs (tie:oracle_only) are judged by the property "
               "oracle alone: cover touches every edge, vertices exist, size = Kuhn maximum matching = exact minimum cover by enumeration; "
-              "this includes the large-index sparse graphs (vertex indices up to 2^17 quick / 2^20 thorough), which the model is never evaluated on"),
+              "this includes the large-index sparse graphs (vertex indices up to 2^17 quick / 2^20 thorough) and the long ladder graphs (alternating "
+              "paths through up to 900 matched pairs: the implementation's recursive searches must get through them under the default recursion "
+              "limit), which the model is never evaluated on"),
     ]
     trusted_base = ["inputs are Python ints (sides) and a sequence of int pairs (the documented domain of BipartiteGraph)",
                     "set(range(n)) is iterated in ascending order by CPython for small ints; irrelevant for the result "
@@ -190,6 +239,13 @@ class C14(Prop):
         rng3 = ctx.rng(stream + ":large")
         for _ in range(ctx.scale(260, 2600) * budget_scale):
             cases.append(self._random_large_index_graph(rng3, ctx.thorough()))
+        # LONG SERIAL ALTERNATING CHAINS (oracle only): ladders  u_i - v_i, u_i - v_{i+1}  closed by one more U vertex on the first
+        # V vertex, so that a maximum matching saturates V, one U vertex stays unmatched and the Koenig exploration has to walk
+        # from it through ALL matched pairs one after the other (depth of the search = number of pairs, 65 .. 900; every band
+        # in every run); called as a user would: default recursion limit, shallow calling stack
+        rng4 = ctx.rng(stream + ":chain")
+        for k in range(ctx.scale(8, 40) * budget_scale):
+            cases.append(self._chain_graph(rng4, k))
         nk = ctx.scale(150, 1500) * budget_scale
         for _ in range(nk):
             c = self._random_graph(rng)
@@ -263,6 +319,59 @@ class C14(Prop):
             for _ in range(rng.randrange(1, 3)):
                 edges.insert(rng.randrange(len(edges) + 1), list(rng.choice(edges)))
         return {"kind": "graph", "nu": nu, "nv": nv, "edges": edges, "family": "deficient"}
+
+    CHAIN_BANDS = [(496, 700), (701, 900), (201, 495), (65, 200)]
+    CHAIN_MAX = 900      # matched pairs on one alternating path (one Python frame per pair in a recursive search)
+
+    @staticmethod
+    def _chain_graph(rng, k):
+        """1-3 disjoint ladders with `total` rungs in all (the longest one first); per ladder one surplus vertex on the U side
+        (mostly) or on the V side; the vertex numbering of V / of U, the order of the edge entries, duplicate entries and
+        isolated vertices are varied"""
+        lo, hi = C14.CHAIN_BANDS[k % len(C14.CHAIN_BANDS)]
+        total = rng.randrange(lo, hi + 1)
+        parts = [total]
+        if rng.random() < 0.3:
+            rest = rng.randrange(1, max(2, total // 4))
+            parts = [total - rest, rest]
+            if rng.random() < 0.4 and rest > 2:
+                r2 = rng.randrange(1, rest)
+                parts = [total - rest, rest - r2, r2]
+        edges, nu, nv, styles = [], 0, 0, []
+        for j, n in enumerate(parts):
+            # (the longest ladder carries the surplus vertex on the U side 9 times of 10: that is the one with the deep search)
+            style = "surplus_u" if rng.random() < (0.9 if j == 0 else 0.6) else "surplus_v"
+            styles.append(style)
+            for i in range(n):
+                edges.append((nu + i, nv + i))
+                if i + 1 < n:
+                    edges.append((nu + i, nv + i + 1))
+            if style == "surplus_u":      # u_n - v_0: V saturated, one U vertex unmatched, the search runs through n pairs
+                edges.append((nu + n, nv))
+                nu, nv = nu + n + 1, nv + n
+            else:                         # u_{n-1} - v_n: a path, every U vertex matched
+                edges.append((nu + n - 1, nv + n))
+                nu, nv = nu + n, nv + n + 1
+        iso_u = rng.choice([0, 0, 1, 3])
+        iso_v = rng.choice([0, 0, 1, 3])
+        nu, nv = nu + iso_u, nv + iso_v
+        relabel = []
+        if rng.random() < 0.5:
+            pv = list(range(nv)); rng.shuffle(pv)
+            edges = [(u, pv[v]) for (u, v) in edges]
+            relabel.append("V")
+        if rng.random() < 0.3:
+            pu = list(range(nu)); rng.shuffle(pu)
+            edges = [(pu[u], v) for (u, v) in edges]
+            relabel.append("U")
+        if rng.random() < 0.3:
+            rng.shuffle(edges)
+            relabel.append("edge_order")
+        if rng.random() < 0.3:
+            for _ in range(rng.randrange(1, 4)):
+                edges.insert(rng.randrange(len(edges) + 1), rng.choice(edges))
+        return {"kind": "graph", "nu": nu, "nv": nv, "edges": [list(e) for e in edges], "notie": True, "family": "chain",
+                "rungs": parts, "styles": styles, "relabelled": relabel}
 
     @staticmethod
     def _random_large_index_graph(rng, thorough):
@@ -362,6 +471,13 @@ class C14(Prop):
             c["tie:" + ("oracle_only" if x.get("notie") else "model")] += 1
             if x.get("family"):
                 c["family:" + x["family"]] += 1
+            if x.get("family") == "chain":
+                lo = next(lo for lo, hi in C14.CHAIN_BANDS if lo <= sum(x["rungs"]) <= hi)
+                c["chain:total_rungs>=%d" % lo] += 1
+                c["chain:longest_ladder>=%d" % max([lo for lo, hi in C14.CHAIN_BANDS if x["rungs"][0] >= lo], default=0)] += 1
+                c["chain:longest_ladder_with_unmatched_U_vertex"] += x["styles"][0] == "surplus_u"
+                for r in x["relabelled"]:
+                    c["chain:relabelled_" + r] += 1
             if x["kind"] != "malformed":
                 c["shape:" + ("wide" if x["nv"] > x["nu"] else "tall" if x["nv"] < x["nu"] else "square")] += 1
             es = [tuple(e) for e in x["edges"]]
@@ -391,6 +507,9 @@ class C14(Prop):
                     out.append(ob)
                     continue
                 big = max(c["nu"], c["nv"]) > BIG_SIDE and c["kind"] == "graph" and c.get("notie")
+                if c.get("family") == "chain":
+                    import sys
+                    ob["recursion_limit"] = sys.getrecursionlimit()
                 if big:     # compact record: lengths and the non-empty lists only; no exploration traces (oracle-only case)
                     snap = lambda adj: [[i, list(a)] for i, a in enumerate(adj) if a]
                     ob["adj_len"] = [len(g.adj_u), len(g.adj_v)]
@@ -567,6 +686,12 @@ class C14(Prop):
         if "ctor_exception" in ob:
             return f"valid input rejected by BipartiteGraph ({ob['ctor_exception']})"
         if "exception" in ob:
+            if case.get("family") == "chain":
+                if ob.get("recursion_limit", 1000) < 1000 and "RecursionError" in ob["exception"]:
+                    return None      # the process runs below the interpreter's default recursion limit: nothing can be said
+                return (f"raised {ob['exception'][:120]} on a {nu} x {nv} graph with {len(set(edges))} edges made of ladders with "
+                        f"{case['rungs']} rungs ({case['styles']}, relabelled: {case['relabelled']}); a minimum cover of size "
+                        f"{kuhn_max_matching(*compress_graph(nu, nv, edges)[:3])} exists; recursion limit {ob.get('recursion_limit')}")
             return f"raised {ob['exception']}"
         es = set(edges)
         # adjacency = the edge set, no duplicates (one list per vertex of each side; the non-empty ones are the neighbour sets)
@@ -626,8 +751,9 @@ class C14(Prop):
             return f"cover ({uc},{vc}) contains a vertex that does not exist"
         if len(set(uc)) != len(uc) or len(set(vc)) != len(vc):
             return f"cover ({uc},{vc}) lists a vertex twice"
+        ucs, vcs = set(uc), set(vc)
         for (u, v) in sorted(es):
-            if u not in uc and v not in vc:
+            if u not in ucs and v not in vcs:
                 return f"edge {(u, v)} is not touched by the cover ({uc},{vc})"
         if max(nu, nv) > BIG_SIDE:     # reference sizes on the graph without its isolated vertices (same sizes, see compress_graph)
             rnu, rnv, redges, _, _ = compress_graph(nu, nv, edges)
